@@ -36,6 +36,17 @@ CHECKS = {
         "introspection via runtime.Stack. Fake tokens registered through the exported token.Openers map.",
    technique="TLA+ spec + TLC exhaustive (safety + liveness); spec behaviours replayed step by step on the real server",
    engine="health"),
+ "C15": dict(cat="model_checking", design="§4 C15",
+   text="spec/WorkerRetry.tla (attempt loop, 15 per-attempt outcome classes, back-off, cancellation anywhere, limit 1..5) and "
+        "spec/TokenCache.tla (two clients interleaved with Rotate/Expire at critical-section grain) checked exhaustively by TLC "
+        "with 9 negative controls. Binding: every generated retry behaviour is replayed on the real worker client against a "
+        "scripted endpoint (attempt count, back-off lower bounds, returned error class, cancel latency); sequential cache "
+        "behaviours on the real tokencache.Cache (ids, hit/miss); classification, cookie gate and key-id pinning through the "
+        "real workercmd handler + real client.",
+   note="Trusted: verif constructors NewForVerif/NewHandlerForVerif (no subprocess), the scripted endpoint, timing only as "
+        "one-sided bounds. PKCS#11 error values come from miekg/pkcs11 constants, no real HSM.",
+   technique="TLA+ specs + TLC exhaustive; spec behaviours replayed on the real retry client, cache and RPC handler",
+   engine="workerretry"),
 }
 
 NOT_YET = {}
